@@ -850,18 +850,6 @@ func (b *Builder) Extract(x *Term, hi, lo uint8) *Term {
 				return b.BXor(p, q)
 			}
 		}
-	case OpAdd, OpSub, OpMul:
-		if lo == 0 { // low bits of modular arithmetic depend on low bits only
-			p, q := b.Extract(x.A[0], hi, 0), b.Extract(x.A[1], hi, 0)
-			switch x.Op {
-			case OpAdd:
-				return b.Add(p, q)
-			case OpSub:
-				return b.Sub(p, q)
-			default:
-				return b.Mul(p, q)
-			}
-		}
 	}
 	return b.mk(OpExtract, w, uint64(hi)<<8|uint64(lo), x, nil, nil)
 }
